@@ -103,7 +103,7 @@ def stageName : Stage → String
   | .explode s c => s!"{EXPLODE}[{s}]{if c then "" else "?"}"
   | .dottedCircle s => s!"{DC}[{s}]"
   | .math s => s!"{MATH}[{s}]"
-  | .instantiate => "Instantiator"
+  | .instantiate st => if st then "Instantiator(caller layers)" else "Instantiator(copies)"
   | .refresh => "_update_instantiator"
   | .propagateI s => s!"{PROPAGATE}[{s}]"
   | .otf n => n
